@@ -257,7 +257,7 @@ func init() {
 				exploreChoice(r, fmt.Sprintf("c08.fine.p%d.b0", p), 2, dl)
 				exploreChoice(r, fmt.Sprintf("c08.complist.p%d.b0", p), 2, dl)
 			} else {
-				exploreChoice(r, fmt.Sprintf("c08.coarse.cheap.p%d.b0", p), -1, dl)
+				exploreChoice(r, fmt.Sprintf("c08.coarse.cheap.p%d.b0", p), 5, dl)
 				for b := 0; b < 4; b++ {
 					exploreChoice(r, fmt.Sprintf("c08.coarse.signing.p%d.b%d", p, b), 3, dl)
 					exploreChoice(r, fmt.Sprintf("c08.fine.p%d.b%d", p, b), 3, dl)
@@ -267,7 +267,7 @@ func init() {
 		}
 		exploreChoice(r, "c08.strict-profile", map[bool]int{false: 2, true: 3}[thorough(r)], dl)
 		c08stats.Publish(r)
-		r.Set("rule", "the claims-sets of C01 (coarse classes with <=2/3 deviations from 4 baselines per profile, fine sweeps, component lists; thorough: the full coarse product for the non-signing gates) driven through the seven validating entry points and compared with Validate() and the non-validating sibling; distinct = distinct abstract claims-set; non-trivial = all but the valid baselines")
+		r.Set("rule", "the claims-sets of C01 (coarse classes with <=2/3 deviations from 4 baselines per profile, fine sweeps, component lists; thorough: <=5 deviations for the non-signing gates) driven through the seven validating entry points and compared with Validate() and the non-validating sibling; distinct = distinct abstract claims-set; non-trivial = all but the valid baselines")
 		r.Set("distinct_nontrivial", max64(r.Get("states")-8, 0))
 		r.Set("bounds", map[string]any{"gates": []string{"Evidence.SetClaims", "ValidateAndEncodeClaimsToCBOR", "ValidateAndEncodeClaimsToJSON", "Evidence.ValidateAndSign", "DecodeAndValidateClaimsFromCBOR", "DecodeAndValidateClaimsFromJSON", "DecodeAndValidateEvidenceFromCOSE"}})
 		r.Sample(map[string]any{"claims": newCoarseGen(2, 0).gen(&choice.Ctx{}, "").String(), "gates": "all seven succeed and equal their siblings"})
